@@ -82,3 +82,34 @@ Example counts_nonvacuous :
              [LDone 1%N (OVal 5%Z) true; LDone 0%N OReject true; LDone 2%N (OVal 4%Z) true]
   with Ret c r => length (c_items c) = 3 /\ c_acc c = 2%N /\ c_rej c = 1%N | _ => False end.
 Proof. vm_compute. repeat split. Qed.
+
+(** ** adaptive parameters of a record: probabilities in [0,1].
+    [meta_adapt::mutate] multiplies each field by [10^exponent] clamped to [floor, ceil] and cuts
+    the three probabilities at 1 (shape regenerated from the source); [f1..f4] stand for the four
+    factors, arbitrary floats (every state of the RNG, also NaN and infinities). *)
+From Flocq Require Import IEEE754.BinarySingleNaN.
+From Cambrian Require Import Base.F64 MetaAdapt.
+Example rescale_shape : rescale_is_clamped_product = true.  Proof. reflexivity. Qed.
+Example mutate_shape : meta_mutate_rescales_each_field = true.  Proof. reflexivity. Qed.
+Example exploratory_shape : exploratory_is_mutated_base = true.  Proof. reflexivity. Qed.
+Example prob_cut_at_one : rescale_prob_clamped_to_one = true.  Proof. reflexivity. Qed.
+
+Theorem adaptive_probabilities_stay_in_unit :
+  forall m f1 f2 f3 f4, m_valid m = true -> m_valid (meta_mutate m f1 f2 f3 f4) = true.
+Proof. intros. apply meta_mutate_valid; [reflexivity|assumption]. Qed.
+Print Assumptions adaptive_probabilities_stay_in_unit.
+
+Theorem exploratory_probabilities_in_unit :
+  forall f1 f2 f3 f4, m_valid (exploratory f1 f2 f3 f4) = true.
+Proof. intros. apply exploratory_valid. reflexivity. Qed.
+Print Assumptions exploratory_probabilities_in_unit.
+
+(** the mutation scale never becomes negative or NaN (the factor [10^exponent] is not NaN) *)
+Theorem mutation_scale_never_negative_or_nan_partial :
+  forall s f, fin s = true -> Bsign s = false -> fnan f = false ->
+    fnan (rescale s f) = false /\ fle fzero (rescale s f) = true.
+Proof. exact rescale_scale_sign. Qed.
+Print Assumptions mutation_scale_never_negative_or_nan_partial.
+
+Example meta_valid_somewhere : m_valid expl_base = true /\ fin (m_mscale expl_base) = true.
+Proof. vm_compute. split; reflexivity. Qed.
